@@ -1,4 +1,4 @@
-//go:build verif
+//go:build verif && (c03 || allprops)
 
 package main
 
@@ -18,29 +18,6 @@ import (
 //  stage utility-evaluate : whole requests WITH biases through the real registries; the DMP that
 //        reaches Evaluate is captured by a wrapping PreferenceFunction; corr: model ranking of that
 //        DMP == Go's result; spec: every reported value == formula on the captured (post-bias) state
-
-type capturingPF struct {
-	inner model.PreferenceFunction
-	got   *model.DecisionMakingParams
-}
-
-func (c *capturingPF) Identifier() string            { return c.inner.Identifier() }
-func (c *capturingPF) MethodParameters() interface{} { return c.inner.MethodParameters() }
-func (c *capturingPF) ParseParams(dm *model.DecisionMaker) interface{} {
-	return c.inner.ParseParams(dm)
-}
-func (c *capturingPF) Evaluate(d *model.DecisionMakingParams) *model.AlternativesRanking {
-	cp := *d
-	cp.ConsideredAlternatives = copyAlts(d.ConsideredAlternatives)
-	cp.NotConsideredAlternatives = copyAlts(d.NotConsideredAlternatives)
-	c.got = &cp
-	return c.inner.Evaluate(d)
-}
-
-func capturing(method string) (*capturingPF, model.PreferenceFunctions) {
-	c := &capturingPF{inner: *funcs.Fetch(method)}
-	return c, model.PreferenceFunctions{Functions: []model.PreferenceFunction{c}}
-}
 
 func wsClass(wc model.WeightedCriteria, a model.AlternativeWithCriteria) string {
 	for _, c := range wc {
